@@ -11,6 +11,8 @@ CONSTANTS
   MaxOps = 2
   Variant = "explicit"
   Steps <- MCSteps
+  Algo = "lstsq"
+  Garbage = 1000
   Record = FALSE
   Temps = {200, 1000}
 INVARIANT AlwaysFresh
